@@ -30,7 +30,9 @@ RULE = ("pairs of nested values over dict (str/int/float/None/bool keys), list, 
         "(all ordered pairs in thorough, a seeded slice in quick), (b) random independent pairs, (c) edit-script neighbours (1-3 edits of every kind at "
         "every depth) and near-miss edits (float +-0.5, int +-1, int<->float, bool<->int, str case/blank/newline, str<->bytes, list<->tuple, set<->frozenset), (d) the same with ==-aliased atoms (1/True/1.0); each with ignore_private_variables in {True, False}. "
         "Non-trivial = the expected result is non-empty; distinct by (t1, t2, ip).")
-TRUSTED = ["difflib.unified_diff is an oracle (Section variable udiff in Coq; the same difflib call in the Python specification)",
+TRUSTED = ["NaN (float('nan'), math.nan, Decimal('NaN')) is outside the atom universe of the Coq model (floats are half-integers): direct oracle only, on values with NaN leaves "
+           "at list / tuple / dict-value positions; rule of the definition: the same object on both sides is no difference, two distinct NaN objects are a values_changed",
+           "difflib.unified_diff is an oracle (Section variable udiff in Coq; the same difflib call in the Python specification)",
            "DeepHash of set members enters the main theorem as an injective function (hypothesis); the correspondence uses the DeepHash scalar model and, for pairs whose "
            "sets contain ==-aliased numbers (finding K2), the memo-threaded model Diff/DiffMemo.v run_diff_m; the Python specification is compared on every pair",
            "path strings: the model renders key sequences with the printer model Path/PathModel.v; the Python specification has its own 6-line renderer",
@@ -51,10 +53,15 @@ TYPE_NAME = {type(None): "NoneType", bool: "bool", int: "int", float: "float", s
 # The executable specification (independent of the Coq text and of deepdiff)
 # ---------------------------------------------------------------------------
 
-def spec_diff(t1, t2, ip=True):
+def spec_diff(t1, t2, ip=True, canon=None):
     """Structural difference of t1 (old) and t2 (new), compared position by
-    position, as the list of entries of the verbose text view."""
+    position, as the list of entries of the verbose text view.
+    One and the same object at a position of both sides is no difference (this matters for
+    NaN only, the one value that is not equal to itself: a NaN shared by identity - t2 derived
+    from t1 by copy / deepcopy / dict(t1, k=v), or math.nan on both sides - is not a change,
+    two distinct NaN objects are a values_changed, exactly as Python's != on them says)."""
     out = []
+    canon = canon or V.canon
 
     def sub(path, key):
         if isinstance(key, str):
@@ -76,25 +83,27 @@ def spec_diff(t1, t2, ip=True):
         return ["Some", "\n".join(lines)] if lines else None
 
     def walk(a, b, path):
+        if a is b:
+            return
         if type(a) is not type(b):
-            out.append(["type_changes", path, TYPE_NAME[type(a)], TYPE_NAME[type(b)], None, ["Some", [V.canon(a), V.canon(b)]]])
+            out.append(["type_changes", path, TYPE_NAME[type(a)], TYPE_NAME[type(b)], None, ["Some", [canon(a), canon(b)]]])
         elif isinstance(a, dict):
             for k, v in b.items():
                 if looked_at(k):
                     if k in a:
                         walk(a[k], v, sub(path, k))
                     else:
-                        out.append(["dictionary_item_added", sub(path, k), ["Some", V.canon(v)]])
+                        out.append(["dictionary_item_added", sub(path, k), ["Some", canon(v)]])
             for k, v in a.items():
                 if looked_at(k) and k not in b:
-                    out.append(["dictionary_item_removed", sub(path, k), ["Some", V.canon(v)]])
+                    out.append(["dictionary_item_removed", sub(path, k), ["Some", canon(v)]])
         elif isinstance(a, (list, tuple)):
             for i in range(max(len(a), len(b))):
                 here = "%s[%d]" % (path, i)
                 if i >= len(a):
-                    out.append(["iterable_item_added", here, V.canon(b[i])])
+                    out.append(["iterable_item_added", here, canon(b[i])])
                 elif i >= len(b):
-                    out.append(["iterable_item_removed", here, V.canon(a[i])])
+                    out.append(["iterable_item_removed", here, canon(a[i])])
                 else:
                     walk(a[i], b[i], here)
         elif isinstance(a, (set, frozenset)):
@@ -108,7 +117,7 @@ def spec_diff(t1, t2, ip=True):
                 if (type(x), x) not in typed_b:
                     out.append(["set_item_removed", "%s[%s]" % (path, shown(x))])
         elif a != b:
-            out.append(["values_changed", path, V.canon(a), V.canon(b), None, text_diff(a, b)])
+            out.append(["values_changed", path, canon(a), canon(b), None, text_diff(a, b)])
 
     walk(t1, t2, "root")
     return core.sx_sorted(out)
@@ -287,7 +296,10 @@ def one_pair(ctx, t1, t2, ip, cases_model, cases_spec, cases_specs, corr=True):
     if D.in_model_guard(t1, t2):
         ctx.count("in_model_guard")
         cases_model.append(("model", t1, t2, ip, observed, dict(tag, what="model vs implementation")))
-        cases_spec.append(("spec", t1, t2, ip, observed, dict(tag, what="coq spec vs implementation")))
+        if not D.tag_unsafe(t1, t2):     # tag-like set members: the implementation deviates from the definition (finding K1)
+            cases_spec.append(("spec", t1, t2, ip, observed, dict(tag, what="coq spec vs implementation")))
+        else:
+            ctx.count("coqspec_vs_impl:skipped_K1_pairs")
     else:
         # ==-aliased set members: the memo-threaded model Diff/DiffMemo.v (DeepDiff's run-wide DeepHash table)
         ctx.count("aliased_set_members:run_on_memo_model")
@@ -299,6 +311,130 @@ def build(lazy):
     expr = (D.model_text_expr(t1, t2, True, 0, 2, ip) if kind == "model"
             else D.memo_text_expr(t1, t2, True, 0, 2, ip) if kind == "memo" else spec_expr(t1, t2, ip))
     return (expr, obs, tag)
+
+
+# ---------------------------------------------------------------------------
+# NaN (outside the atom universe of the Coq model: direct oracle only)
+# ---------------------------------------------------------------------------
+
+def is_nan(x):
+    import decimal
+    return (isinstance(x, float) and x != x) or (isinstance(x, decimal.Decimal) and x.is_nan())
+
+
+def nan_marked(v):
+    """v with every NaN leaf replaced by a marker string (NaN has no canonical form)"""
+    if is_nan(v):
+        return "<NaN:%s>" % type(v).__name__
+    if isinstance(v, dict):
+        return {k: nan_marked(x) for k, x in v.items()}
+    if isinstance(v, list):
+        return [nan_marked(x) for x in v]
+    if isinstance(v, tuple):
+        return tuple(nan_marked(x) for x in v)
+    return v
+
+
+def nan_text_obs(res):
+    """text_obs of a result whose values may hold NaN"""
+    marked = {}
+    for cat, items in dict(res).items():
+        if isinstance(items, dict):
+            marked[cat] = {p: ({k: (x if k in ("old_type", "new_type") else nan_marked(x)) for k, x in ch.items()} if isinstance(ch, dict) else nan_marked(ch))
+                           for p, ch in items.items()}
+        else:
+            marked[cat] = items
+    return D.text_obs(marked)
+
+
+def gen_nan_pairs(ctx, n):
+    """(t1, t2, kind): values with NaN leaves (float('nan'), math.nan, Decimal('NaN')) at list / tuple /
+    dict-value positions; t2 derived from t1 so that NaN objects are SHARED by identity (deepcopy, shallow
+    copies, dict(t1, k=v), an edit elsewhere) or re-created as distinct objects"""
+    import decimal
+    import math
+    rng = ctx.rng
+
+    def fresh_nan(kind=None):
+        kind = kind or rng.choice(["float", "math", "decimal"])
+        return float("nan") if kind == "float" else math.nan if kind == "math" else decimal.Decimal("NaN")
+
+    def val(depth):
+        r = rng.random()
+        if depth == 0 or r < 0.3:
+            return fresh_nan() if rng.random() < 0.5 else rng.choice([1, 2.5, "a", None, True])
+        m = rng.randint(1, 3)
+        if r < 0.55:
+            return [val(depth - 1) for _ in range(m)]
+        if r < 0.75:
+            return tuple(val(depth - 1) for _ in range(m))
+        return {k: val(depth - 1) for k in rng.sample(["a", "b", "c", 1, None], m)}
+
+    def rebuild(v, p_new):
+        """a copy; each NaN leaf is kept (same object) or, with probability p_new, re-created (distinct object, same type)"""
+        if is_nan(v):
+            return type(v)("nan") if rng.random() < p_new else v
+        if isinstance(v, dict):
+            return {k: rebuild(x, p_new) for k, x in v.items()}
+        if isinstance(v, list):
+            return [rebuild(x, p_new) for x in v]
+        if isinstance(v, tuple):
+            return tuple(rebuild(x, p_new) for x in v)
+        return v
+
+    def change_elsewhere(v):
+        """one real change at a non-NaN position (or an appended item)"""
+        if isinstance(v, list):
+            if v and rng.random() < 0.7:
+                i = rng.randrange(len(v))
+                return v[:i] + [change_elsewhere(v[i])] + v[i + 1:]
+            return v + ["new"]
+        if isinstance(v, tuple) and v:
+            i = rng.randrange(len(v))
+            return v[:i] + (change_elsewhere(v[i]),) + v[i + 1:]
+        if isinstance(v, dict):
+            if v and rng.random() < 0.7:
+                k = rng.choice(list(v))
+                return dict(v, **{}) | {k: change_elsewhere(v[k])}
+            return dict(v) | {"new_key": 0}
+        if is_nan(v):
+            return v
+        return [v] if rng.random() < 0.3 else ("changed" if v != "changed" else "again")
+
+    n0 = float("nan")
+    out = [([n0], [n0], "nan:fixed_same"), ([n0], [float("nan")], "nan:fixed_distinct"), ({"a": [1, n0], "b": 2}, {"a": [1, n0], "b": 3}, "nan:fixed_change_elsewhere"),
+           ([math.nan, 1], [math.nan, 1], "nan:fixed_math_nan"), ((decimal.Decimal("NaN"),) * 1, (decimal.Decimal("NaN"),), "nan:fixed_decimal_distinct")]
+    for _ in range(n):
+        t1 = val(3)
+        if not isinstance(t1, (list, tuple, dict)):
+            t1 = [t1, 0]
+        out.append((t1, copy.deepcopy(t1), "nan:deepcopy"))
+        out.append((t1, copy.copy(t1), "nan:shallow_copy"))
+        out.append((t1, change_elsewhere(rebuild(t1, 0.0)), "nan:shared+change_elsewhere"))
+        out.append((t1, rebuild(t1, 0.5), "nan:some_recreated"))
+        out.append((t1, change_elsewhere(rebuild(t1, 0.5)), "nan:some_recreated+change_elsewhere"))
+    return out
+
+
+def nan_pair(ctx, t1, t2, kind, ip):
+    """the direct oracle on a pair with NaN leaves.  DeepDiff is given t1 and t2 themselves (a deepcopy
+    would keep float identity anyway; Decimal is copied as the same object too)"""
+    from deepdiff import DeepDiff
+    case = dict(t1=repr(t1), t2=repr(t2), ip=ip, kind=kind,
+                pickle_b64=__import__("base64").b64encode(__import__("pickle").dumps((t1, t2))).decode("ascii"))
+    expected = spec_diff(t1, t2, ip, canon=lambda v: V.canon(nan_marked(v)))
+    try:
+        res = DeepDiff(t1, t2, ignore_private_variables=ip, **POS)
+        observed = nan_text_obs(res)
+    except Exception as e:  # noqa
+        ctx.fail(dict(case, clause="DeepDiff raised " + type(e).__name__), "DeepDiff raised " + repr(e))
+        return
+    ctx.seen((case["t1"], case["t2"], ip, kind), nontrivial=bool(expected))
+    ctx.count("gen:" + kind)
+    ctx.count("nan:expected_entries", len(expected))
+    if observed != expected:
+        ctx.fail(dict(case, clause="result differs from the specification", expected=expected, observed=observed),
+                 "positional result differs from the recursive definition (NaN leaves): expected %s observed %s" % (core.sx_show(expected)[:500], core.sx_show(observed)[:500]))
 
 
 def replay_witnesses(ctx):
@@ -324,6 +460,8 @@ def run(ctx):
         ip = (i % 2 == 0)
         t1, t2 = stable_order(t1), stable_order(t2)
         one_pair(ctx, t1, t2, ip, cases_model, cases_spec, cases_specs)
+    for k, (t1, t2, kind) in enumerate(gen_nan_pairs(ctx, 3000 if ctx.thorough else 300)):
+        nan_pair(ctx, t1, t2, kind, ip=(k % 2 == 0))
     replay_witnesses(ctx)
     # correspondence budget: a seeded slice of the evaluated pairs (10x larger in thorough)
     def pick(cs, n):
@@ -343,7 +481,10 @@ def run(ctx):
 
 def replay(ctx, data):
     case = data.get("case", {})
-    if "t1" in case:
+    if "pickle_b64" in case:
+        t1, t2 = __import__("pickle").loads(__import__("base64").b64decode(case["pickle_b64"]))   # keeps the NaN objects shared
+        nan_pair(ctx, t1, t2, case.get("kind", "nan:replay"), case.get("ip", True))
+    elif "t1" in case:
         t1, t2 = eval(case["t1"]), eval(case["t2"])
         one_pair(ctx, t1, t2, case.get("ip", True), [], [], [], corr=False)
     else:
